@@ -443,6 +443,33 @@ func main() {
 			}
 			r.Violate(pa.Name, sig, fmt.Sprintf("%s native=%v:\n--- snapshot\n%s\n--- LMDB\n%s", label, native, got, want), rep)
 		}
+		if !native {
+			// shadow mode: what the snapshot calls live is exactly what the application's DBIs hold (the capture is
+			// part of the same transaction as the dump)
+			app := world.PlainContent(a.Env.RawDump(), world.PickNative)
+			live := map[string]map[string]string{}
+			for d := range app {
+				live[d] = map[string]string{}
+			}
+			for _, d := range snap.Databases {
+				d.ResetCursor()
+				if live[d.Name()] == nil {
+					live[d.Name()] = map[string]string{}
+				}
+				for {
+					kv, err := d.Next()
+					if err != nil {
+						break
+					}
+					if kv.Flags&1 == 0 {
+						live[d.Name()][string(kv.Key)] = string(kv.Value)
+					}
+				}
+			}
+			if world.PlainString(app) != world.PlainString(live) {
+				r.Violate(pa.Name, "snapshot-live-entries-differ-from-application-dbis", fmt.Sprintf("%s: application DBIs %s, live entries of the snapshot %s", label, world.PlainString(app), world.PlainString(live)), rep)
+			}
+		}
 		ni, perr := snapshot.ParseName(name)
 		if perr != nil || ni.SyncerName != inst.DBName || ni.InstanceID != "a" {
 			r.Violate(pa.Name, "snapshot-name-wrong", fmt.Sprintf("%s: %q (%v)", label, name, perr), rep)
@@ -482,7 +509,7 @@ func main() {
 						if native {
 							must(txn.Put(dbi, e.key, e.raw(), 0))
 						} else {
-							must(txn.Put(dbi, e.key, append([]byte("p"), e.val...), 0))
+							must(txn.Put(dbi, e.key, e.val, 0)) // incl. empty values
 						}
 					}
 					if variant&1 != 0 {
